@@ -71,6 +71,12 @@ type PropProblem struct {
 //
 // noErrResult is true when the enclosing function has no error result (caller decides about exemptions).
 func CheckErrPropagated(fn *ssa.Function, call ssa.CallInstruction) (problems []PropProblem, noErrResult bool, complete bool) {
+	return CheckErrPropagatedOpt(fn, call, false)
+}
+
+// CheckErrPropagatedOpt is CheckErrPropagated; with eofHandled, a path that took the true edge of `err == io.EOF` (or the
+// false edge of `err != io.EOF`) counts as having handled the error (end of input is an outcome, not a failure).
+func CheckErrPropagatedOpt(fn *ssa.Function, call ssa.CallInstruction, eofHandled bool) (problems []PropProblem, noErrResult bool, complete bool) {
 	complete = true
 	errIdx := ErrResultIndex(fn.Signature)
 	e, has := ErrResultOfCall(call)
@@ -185,6 +191,23 @@ func CheckErrPropagated(fn *ssa.Function, call ssa.CallInstruction) (problems []
 			if i+1 < len(path) {
 				if cond, taken, ok := BranchTaken(b, path[i+1]); ok {
 					lastOnSameCall = false
+					if eofHandled {
+						if bo, ok := cond.(*ssa.BinOp); ok && (bo.Op == token.EQL || bo.Op == token.NEQ) {
+							isEOF := func(v ssa.Value) bool {
+								u, ok := v.(*ssa.UnOp)
+								if !ok || u.Op != token.MUL {
+									return false
+								}
+								g, ok := u.X.(*ssa.Global)
+								return ok && g.Name() == "EOF" && g.Pkg != nil && g.Pkg.Pkg.Path() == "io"
+							}
+							if (aliases[bo.X] && isEOF(bo.Y)) || (aliases[bo.Y] && isEOF(bo.X)) {
+								if (bo.Op == token.EQL) == taken {
+									state = "nil"
+								}
+							}
+						}
+					}
 					if x, trueMeansNil, ok := NilCmp(cond); ok && aliases[x] {
 						if taken == trueMeansNil {
 							state = "nil"
